@@ -24,7 +24,7 @@ func init() {
 		ID:    "C02",
 		Level: "model_checking",
 		Rule: "BFS to closure of the used-nonce lattice over pairs {0,1}x{0,2^64-1} (quick) / {0,1}x{0,1,2^64-1} (thorough): each pair receivable as a plain message (v in {0,1}, submitter A) or as a module-addressed burn message " +
-			"(legacy v 27/28, submitter B), plus failing receives, pause/unpause, disabling and re-enabling an attester, unlinking and re-linking the token pair; used set observed through single query, paginated list and export in every state; " +
+			"(legacy v 27/28, submitter B), plus failing receives, pause/unpause, disabling and re-enabling an attester, unlinking and re-linking the token pair, removing and re-adding the remote token messenger; every other administrative transaction type probed in every state; used set observed through single query, paginated list and export in every state; " +
 			"plus the ordered-pair grid {0,1,255,256,2^32-1}x{0,1,255,256,2^32-1,2^32,2^64-1} for key injectivity; distinct_nontrivial counts distinct (used set, transaction, outcome) triples and grid pairs",
 		Assumptions: []string{"attestations are produced by the harness keys (honest attesters); forgery is not attempted"},
 		Jobs:        c02Jobs,
@@ -136,6 +136,8 @@ func c02BFS(r *Run) {
 		Act("enableAttester(K2) by A1", &cctptypes.MsgEnableAttester{From: AttMgr.Str, Attester: Keys[1].Hex}),
 		Act("unlinkTokenPair(0,token0) by A3", &cctptypes.MsgUnlinkTokenPair{From: TokenCtl.Str, RemoteDomain: DomEth, RemoteToken: RemoteToken0}),
 		Act("linkTokenPair(0,token0) by A3", &cctptypes.MsgLinkTokenPair{From: TokenCtl.Str, RemoteDomain: DomEth, RemoteToken: RemoteToken0, LocalToken: "uusdc"}),
+		Act("removeRemoteTokenMessenger(0) by A0", &cctptypes.MsgRemoveRemoteTokenMessenger{From: Owner.Str, DomainId: DomEth}),
+		Act("addRemoteTokenMessenger(0) by A0", &cctptypes.MsgAddRemoteTokenMessenger{From: Owner.Str, DomainId: DomEth, Address: RemoteMessenger0}),
 	)
 	if r.Tier == "thorough" {
 		menu = append(menu,
@@ -215,6 +217,21 @@ func c02BFS(r *Run) {
 			}
 			if got := strings.Join(export, ","); got != want {
 				r.Violate("C02 exported used-nonce list disagrees with the history", fmt.Sprintf("after %v: export {%s}, history {%s}", descs(n.Path), got, want), rp(want, got))
+			}
+			// no administrative transaction of any type forgets (or invents) a used pair
+			holders := map[Role]string{RoleOwner: Owner.Str, RoleAttMgr: AttMgr.Str, RolePauser: Pauser.Str, RoleTokenCtl: TokenCtl.Str, RolePending: Outsider.Str}
+			for _, tx := range AdminTxs {
+				a := tx.Make(holders[tx.Role])
+				w.Load(n.Dump)
+				o := w.Apply(a)
+				r.Transitions++
+				r.Class(o.Class())
+				_, l2, _, err := observeUsed(w, nil)
+				if err == nil && strings.Join(l2, ",") != want {
+					x := scn.Replay("actions", append(append([]Action{}, n.Path...), a))
+					x.Expected, x.Observed = want, strings.Join(l2, ",")
+					r.Violate("C02 an administrative transaction changed the used-nonce set: "+tx.Name, fmt.Sprintf("after %v then %s: used {%s}, before {%s}", descs(n.Path), a.Desc, strings.Join(l2, ","), want), x)
+				}
 			}
 		},
 	}
